@@ -702,17 +702,18 @@ func ruleV14(c *Ctx) {
 			if cv, ok := cnt.(*ssa.Convert); ok {
 				cnt = cv.X
 			}
-			phi, ok := cnt.(*ssa.Phi)
-			if !ok {
-				return
-			}
 			step := int64(0)
-			for _, e := range phi.Edges {
-				if add, ok := e.(*ssa.BinOp); ok && add.Op == token.ADD && add.X == ssa.Value(phi) {
-					if k, ok := constInt(add.Y); ok {
-						step = k
+			if phi, ok := cnt.(*ssa.Phi); ok {
+				for _, e := range phi.Edges {
+					if add, ok := e.(*ssa.BinOp); ok && add.Op == token.ADD && add.X == ssa.Value(phi) {
+						if k, ok := constInt(add.Y); ok {
+							step = k
+						}
 					}
 				}
+			} else if k, ok := constInt(cnt); ok && k > 0 && k%7 == 0 && k < 64 && v14TestsContinuation(fn) {
+				// an unrolled decoder: `uint32(b1) << 7` in a function that tests bytes against 0x80
+				step = 7
 			}
 			if step <= 0 || step >= 8 {
 				return
@@ -1510,6 +1511,44 @@ func ruleO19(c *Ctx) {
 			c.viol(dkey, c.P.Pos(dLoop[0].Pos()), "the stack depth is tested only inside the instruction loop (at the call instruction): Starlark functions entered through starlark.Call - key= callbacks, host built-ins calling back - are never depth-checked, so recursion through them runs until the Go stack is exhausted, which is fatal")
 		default:
 			c.viol(dkey, c.P.Pos(fn.Pos()), "CallInternal never compares the depth of the thread's stack with a limit: unbounded recursion exhausts the Go stack, which is fatal")
+		}
+	}
+	// the scan is conditional on the Recursion option and on nothing else: a second condition ("leaf
+	// functions cannot already be active") exempts some functions, and a host value whose operator calls
+	// back into Starlark re-enters them unnoticed
+	if len(entry) > 0 {
+		for _, pc := range pathConds(entry[0].Block()) {
+			// conditions that belong to the scan itself: inside a loop, or a type test of a frame's callable
+			inLoop := false
+			for _, l := range naturalLoops(fn) {
+				if l[pc.If.Block()] && !mainLoop[pc.If.Block()] {
+					inLoop = true
+				}
+			}
+			if inLoop {
+				continue
+			}
+			okCond := false
+			for y := range backSlice(pc.If.Cond) {
+				if ld, ok := y.(*ssa.UnOp); ok && ld.Op == token.MUL {
+					if fa, ok := ld.X.(*ssa.FieldAddr); ok {
+						if deref(fa.X.Type()).Underlying().(*types.Struct).Field(fa.Field).Name() == "Recursion" {
+							okCond = true
+						}
+					}
+				}
+			}
+			if cv, _ := stripNot(pc.If.Cond); !okCond {
+				if ld, ok := cv.(*ssa.UnOp); ok && ld.Op == token.MUL {
+					if fa, ok := ld.X.(*ssa.FieldAddr); ok && deref(fa.X.Type()).Underlying().(*types.Struct).Field(fa.Field).Name() == "Recursion" {
+						okCond = true
+					}
+				}
+			}
+			if !okCond {
+				c.viol(key+": unconditional", c.P.Pos(pc.If.Pos()), "the recursion scan is skipped under a condition other than the Recursion option: functions for which it holds can be re-entered (through a host value's operator or attribute that calls back into Starlark) without the error the dialect promises")
+				return
+			}
 		}
 	}
 	switch {
@@ -3716,3 +3755,23 @@ func ruleN15(c *Ctx) {
 }
 
 var n15Exceptions = map[string]string{}
+
+// v14TestsContinuation: the function compares a byte with 0x80 (the continuation bit of a varint group).
+func v14TestsContinuation(fn *ssa.Function) bool {
+	found := false
+	eachInstr(fn, func(in ssa.Instruction) {
+		b, ok := in.(*ssa.BinOp)
+		if !ok {
+			return
+		}
+		switch b.Op {
+		case token.LSS, token.GEQ, token.AND:
+			if k, ok := constInt(b.Y); ok && k == 0x80 {
+				if bt, ok := b.X.Type().Underlying().(*types.Basic); ok && bt.Kind() == types.Uint8 {
+					found = true
+				}
+			}
+		}
+	})
+	return found
+}
